@@ -100,3 +100,35 @@ def vector_cases(repo):
     """The project's cross-language vectors as (decls, name, value, bytes)."""
     n, problems, used = ref.self_check(repo)
     return n, problems, used
+
+
+K_SIGNED_MIN = "serde-signed-min-decodes-positive"
+
+
+def signed_min_model(sch, t, v):
+    """DEFECT MODEL of known finding serde-signed-min-decodes-positive: the value the Python decoder
+    returns for v - every signed leaf holding -2^(N-1) comes back as +2^(N-1), nothing else changes.
+    Returns (model value, number of affected leaves)."""
+    k = t[0]
+    if k == "i":
+        if v == -(1 << (t[1] - 1)):
+            return (1 << (t[1] - 1)), 1
+        return v, 0
+    if k == "struct":
+        out = {}
+        n = 0
+        for f in sch.structs[t[1]]:
+            out[f["name"]], c = signed_min_model(sch, f["type"], v[f["name"]])
+            n += c
+        return out, n
+    if k in ("arr", "dyn"):
+        out = []
+        n = 0
+        for x in v:
+            y, c = signed_min_model(sch, t[1], x)
+            out.append(y)
+            n += c
+        return out, n
+    if k == "opt" and v is not None:
+        return signed_min_model(sch, t[1], v)
+    return v, 0
